@@ -517,7 +517,52 @@ def run_shard(sink, tier, seed, shard):  # noqa: C901
                     continue
                 sink.violation(f'sanitizer/{rep["kind"]}/{rep["frame"]}', f'no {variant} report under concurrent use', dict(variant=variant, reports=rep['count']), rep['text'][:1800])
         sink.count(f'variant:{variant}')
+    if tier != 'quick':
+        repo_concurrency_tests(sink)
     sink.extra['distinct_schedule_traces'] = len(sink.fingerprints)
+
+
+def repo_concurrency_tests(sink):
+    """Thorough: the repository's own concurrency tests (thread pools over the whole API) run against the TSan and the ASan build of the
+    working tree; race / lock-order / memory reports with an engine frame and interpreter deaths are the oracle."""
+    import re
+    import shutil
+    import subprocess
+    import tempfile
+
+    test = os.path.join(build.repo(), 'tests', 'test_concurrent.py')
+    if not os.path.exists(test):
+        sink.notes.append('tests/test_concurrent.py not found: pass skipped')
+        return
+    for variant in ('tsan', 'asan'):
+        work = tempfile.mkdtemp(prefix=f'c17t-{variant}-', dir=os.path.join(build.VERIF, '.work'))
+        log_path = os.path.join(work, 'san')
+        env = build.env_for(variant, log_path=log_path)
+        env.pop('OPTREE_VERIF', None)
+        try:
+            cmd = [build.PY, '-m', 'pytest', '-q', '-p', 'no:cacheprovider', '--timeout=2400', '--rootdir', work, '-c', os.devnull, test]
+            try:
+                r = subprocess.run(cmd, env=env, cwd=work, capture_output=True, text=True, timeout=3600)
+            except subprocess.TimeoutExpired:
+                sink.notes.append(f'repository concurrency tests under {variant}: watchdog fired (inconclusive for this pass)')
+                sink.count('repo-concurrency-tests:timeouts')
+                continue
+            tail = r.stdout[-2000:]
+            m = re.search(r'(\d+) passed', tail)
+            sink.count(f'repo-concurrency-tests:{variant}:passed', int(m.group(1)) if m else 0)
+            m = re.search(r'(\d+) failed', tail)
+            if m:
+                sink.count(f'repo-concurrency-tests:{variant}:failed', int(m.group(1)))
+                sink.notes.append(f'repository concurrency tests failing on the {variant} build: ' + tail[-400:])
+            if r.returncode < 0 or r.returncode > 5:
+                sink.violation(f'crash/repo-concurrency-tests/rc={r.returncode}/{variant}', 'no thread crashes the interpreter', dict(variant=variant, part='repo-concurrency-tests'), tail[-1500:] + r.stderr[-500:])
+            for rep in sanlog.collect(log_path):
+                if variant == 'tsan' and rep['frame'] == 'no-repo-frame':
+                    sink.count('tsan-reports-outside-the-engine', rep['count'])
+                    continue
+                sink.violation(f'sanitizer/{rep["kind"]}/{rep["frame"]}', f'no {variant} report under concurrent use', dict(variant=variant, part='repo-concurrency-tests', reports=rep['count']), rep['text'][:1800])
+        finally:
+            shutil.rmtree(work, ignore_errors=True)
 
 
 def finalize(sink, tier, seed):
